@@ -251,6 +251,7 @@ def run_clock(chk, bindir, tier):
     chk.extra["clock_readings"] = rep["reads"]
     chk.extra["sleeps"] = len(sleeps)
     chk.extra["sleeps_hit_by_signals"] = sum(1 for e in sleeps if e["signals"] > 0)
+    chk.extra["sleeps_interrupted_with_whole_seconds_left"] = sum(1 for e in sleeps if e.get("long") and e["signals"] > 0 and e["ds"] >= 1)
     chk.sample(sleeps[-1] if sleeps else evs[-1])
     # distinct non-trivial: sleeps with d > 0, and readings that differ from the lane's previous one
     return len({(e["ds"], e["dns"], e["signals"] > 0) for e in sleeps if (e["ds"], e["dns"]) != (0, 0)})
